@@ -4,7 +4,7 @@
 Require Extraction.
 Require ExtrOcamlBasic.
 From Coq Require Import List NArith ZArith String.
-From BV Require Import Base Fmt Gen.Escapes Buf Codec Get Gen.GetPut Cmp BufMut Heap Spec.
+From BV Require Import Base Fmt Gen.Escapes Buf Codec Get Gen.GetPut Cmp BufMut Heap Spec Recycle.
 Extraction Language OCaml.
 Extraction "model.ml"
   Fmt.parse_lit Fmt.debug_fmt Fmt.hex_fmt Fmt.unhex Fmt.tbl_of Fmt.visit Fmt.serialize Fmt.is_lower_hex Fmt.is_upper_hex
@@ -19,6 +19,7 @@ Extraction "model.ml"
   Gen.GetPut.vec_reserve Gen.GetPut.bytesmut_reserve
   Heap.hst0 Heap.run_op Heap.handles_of Heap.storages_of Heap.owners_of Heap.handle_unique Heap.handle_contents
   Spec.sst0 Spec.sstep Spec.svals_of
+  Recycle.bound Recycle.run Recycle.init
   Cmp.cmp_bytes Cmp.eq_bytes
   Codec.dec Codec.spec_of_getter Codec.spec_of_putter Codec.enc
   Get.get Get.tables_ok
